@@ -250,6 +250,43 @@ def run(F, tier, res):
             else:
                 res.violate('ORDER', 'fn=%s' % p, 'the plain-text grep regexes are tried in the order %s, documented (most specific first): %s' % (order, VARIANT_ORDER), where=F.bodies[p]['mir']['span']['at'])
     res.rule('C16.ORDER', no, 1, 'array of plain-text grep regexes in parse_grep_line (statics -> variants: %s)' % static_variant, discharged=oko)
+    # ---------- XMODE: in a verbose-mode ((?x)) regex whitespace is ignored - also inside a character class in the regex crate's
+    # syntax - so a blank that is meant literally must be escaped; an unescaped blank inside [...] silently drops out of the class
+    nx = okx = 0
+
+    def unescaped_blank_in_class(pat):
+        if '(?x' not in pat and '(?' not in pat:
+            return False
+        import re as _re
+        if not _re.search(r'\(\?[a-wyz]*x', pat):
+            return False
+        i, depth = 0, 0
+        while i < len(pat):
+            ch = pat[i]
+            if ch == '\\':
+                i += 2
+                continue
+            if ch == '[':
+                depth += 1
+            elif ch == ']' and depth:
+                depth -= 1
+            elif ch in ' \t' and depth:
+                return True
+            elif ch == '#' and not depth:
+                # comment to end of line
+                j = pat.find('\n', i)
+                i = len(pat) if j < 0 else j
+            i += 1
+        return False
+    for var in variants:
+        pat = tmpl.replace('{file_path}', fp_map[var] or '').replace('{separator}', sep_map[var] or '').replace('\\n', '\n')
+        nx += 1
+        if unescaped_blank_in_class(pat):
+            res.violate('XMODE', 'variant=%s' % var, 'the %s grep regex is compiled in verbose mode and contains an unescaped blank inside a character class: the blank is ignored, '
+                        'so the class no longer excludes (or includes) spaces as written' % var, where=F.bodies[mk]['mir']['span']['at'])
+        else:
+            okx += 1
+    res.rule('C16.XMODE', nx, 5, 'verbose-mode grep regex variants: no unescaped blank inside a character class', discharged=okx)
     # ---------- SHIFT: submatch coordinates are moved by a quantity measured on the expanded text
     ns = oks = 0
     ets = [p for p in F.fn_bodies if 'handlers::grep' in p and any(callee_of(c).endswith('tabs::expand') for _, c in F.calls(p))
